@@ -8,13 +8,15 @@ import (
 )
 
 type MultiLocalisedUnicode struct {
-	entriesByLanguageCountry map[[2]byte]map[[2]byte]string
+	// Strings are kept as the UTF-16BE bytes of the tag data and decoded on
+	// request, so that parsing costs no more than the size of the tag.
+	entriesByLanguageCountry map[[2]byte]map[[2]byte][]byte
 }
 
 func (mluc *MultiLocalisedUnicode) getAnyString() string {
 	for _, country := range mluc.entriesByLanguageCountry {
 		for _, s := range country {
-			return s
+			return decodeUTF16BE(s)
 		}
 	}
 	return ""
@@ -26,20 +28,20 @@ func (mluc *MultiLocalisedUnicode) getString(language [2]byte, country [2]byte) 
 		return ""
 	}
 
-	return countries[country]
+	return decodeUTF16BE(countries[country])
 }
 
 func (mluc *MultiLocalisedUnicode) getStringForLanguage(language [2]byte) string {
 	for _, s := range mluc.entriesByLanguageCountry[language] {
-		return s
+		return decodeUTF16BE(s)
 	}
 	return ""
 }
 
-func (mluc *MultiLocalisedUnicode) setString(language [2]byte, country [2]byte, text string) {
+func (mluc *MultiLocalisedUnicode) setString(language [2]byte, country [2]byte, text []byte) {
 	countries, ok := mluc.entriesByLanguageCountry[language]
 	if !ok {
-		countries = map[[2]byte]string{
+		countries = map[[2]byte][]byte{
 			country: text,
 		}
 		mluc.entriesByLanguageCountry[language] = countries
@@ -51,7 +53,7 @@ func (mluc *MultiLocalisedUnicode) setString(language [2]byte, country [2]byte, 
 
 func parseMultiLocalisedUnicode(data []byte) (MultiLocalisedUnicode, error) {
 	result := MultiLocalisedUnicode{
-		entriesByLanguageCountry: make(map[[2]byte]map[[2]byte]string),
+		entriesByLanguageCountry: make(map[[2]byte]map[[2]byte][]byte),
 	}
 
 	reader := bytes.NewReader(data)
@@ -114,12 +116,7 @@ func parseMultiLocalisedUnicode(data []byte) (MultiLocalisedUnicode, error) {
 			return result, fmt.Errorf("record exceeds tag data length")
 		}
 
-		recordStringBytes := data[stringOffset : stringOffset+stringLength]
-		recordStringUTF16 := make([]uint16, len(recordStringBytes)/2)
-		for j := 0; j < len(recordStringUTF16); j++ {
-			recordStringUTF16[j] = uint16(recordStringBytes[j*2])<<8 | uint16(recordStringBytes[j*2+1])
-		}
-		result.setString(language, country, string(utf16.Decode(recordStringUTF16)))
+		result.setString(language, country, data[stringOffset:stringOffset+stringLength])
 
 		// Skip to next record
 		for j := uint32(12); j < recordSize; j++ {
@@ -131,6 +128,14 @@ func parseMultiLocalisedUnicode(data []byte) (MultiLocalisedUnicode, error) {
 	}
 
 	return result, nil
+}
+
+func decodeUTF16BE(stringBytes []byte) string {
+	stringUTF16 := make([]uint16, len(stringBytes)/2)
+	for j := 0; j < len(stringUTF16); j++ {
+		stringUTF16[j] = uint16(stringBytes[j*2])<<8 | uint16(stringBytes[j*2+1])
+	}
+	return string(utf16.Decode(stringUTF16))
 }
 
 type languageCountry struct {
